@@ -137,7 +137,7 @@ def check_case(case: dict[str, Any], ctx: Any = None) -> list[str]:
     result = None
     try:
         try:
-            with Fuel(15000, 200):
+            with Fuel(2500, 200):  # also bounds the tree nodes built (deep copies in forecasting)
                 res = f.fuzz(mode=FuzzingMode.IO, population_size=4, desired_solutions=1, max_generations=case["gens"],
                              random_seed=case["seed"])
             result = res[0] if res else None
@@ -245,7 +245,7 @@ def _collect_syms(n: Any, out: dict[Any, Any]) -> None:
 
 
 def run_shard(ctx: Any) -> None:
-    n = 100 if ctx.tier == "quick" else 2500
+    n = 60 if ctx.tier == "quick" else 2500
 
     @given(cases())
     def test(case: dict[str, Any]) -> None:
